@@ -382,6 +382,7 @@ fn u7_trunc_a() {
 }
 
 //@ obligation: U7.trunc.b
+//@ cost: heavy
 //@ props: C13 C14
 //@ fns: read_attributes[Color3,Vector2,Vector3,NumberRange,Rect,BrickColor]
 //@ kind: complete
@@ -517,6 +518,7 @@ fn cframe_read(explicit: bool) {
 }
 
 //@ obligation: U7.CFrame.read
+//@ cost: heavy
 //@ props: C14 C13
 //@ fns: read_attributes[CFrame]
 //@ kind: complete
